@@ -240,6 +240,29 @@ pub fn run(args: &[String]) {
                 }
             }
         }
+        // the same pairs, separated by a blank, placed so that the first character is parser token 61..65 and
+        // 125..129 (the joint bits are kept in 64-bit words), after a first statement whose first token is
+        // glued to its successor (`x=1;`) or not (`x = 1;`)
+        for first in ["x=1;", "x = 1;"] {
+            for target in [63usize, 127] {
+                for shift in 0..5usize {
+                    let want = target + shift - 2;          // index of the first operator character
+                    let before = want - 4 - 3;              // tokens between the first statement and `z = a`
+                    let mut text = String::from(first);
+                    text.push('\n');
+                    for i in 0..(before / 2) {
+                        text.push_str(&format!("y{i};\n"));
+                    }
+                    if before % 2 == 1 {
+                        text.push_str(";\n");
+                    }
+                    for (a, b) in [(">", ">"), ("<", "="), ("=", "="), ("!", "="), ("-", ">"), ("&", "&"), ("|", "|"), ("*", "*"), ("+", "+")] {
+                        emit(&mut w, &format!("{text}z = a {a} {b} b;\nint last;\n"));
+                        emit(&mut w, &format!("{text}z = a {a}{b} b;\nint last;\n"));
+                    }
+                }
+            }
+        }
         for (a, b, c) in [(".", ".", "."), (".", ".", "="), ("<", "<", "="), (">", ">", "=")] {
             for s1 in seps {
                 for s2 in seps {
